@@ -7,7 +7,7 @@ def plan(pid, tier, seed):
     quick = tier == "quick"
     mc = [{"module": "MapOrder_MC", "cfg": c, "properties": ["C08_CollectionInvariant", "C08_PromisedOrderInvariant", "C08_FoldOrderIndependent"], "timeout": 300}
           for c in ("MapOrder_collect.cfg", "MapOrder_sorted_distinct.cfg", "MapOrder_sorted_tied.cfg", "MapOrder_fold_independent.cfg")]
-    return {"harness": "determinism", "mc": mc, "gen": [], "rand": 72 if quick else 400, "trace": TRACE, "run_timeout": 3000}
+    return {"harness": "determinism", "needs_coca": True, "mc": mc, "gen": [], "rand": 72 if quick else 400, "trace": TRACE, "run_timeout": 3000}
 
 
 def nontrivial(rec):
